@@ -185,10 +185,10 @@ WRAPPERS = {
     "sphere": W("sphere", F + "field_BH_sphere", "BHJM_magnet_sphere", [("observers", (3,)), ("diameter", ()), ("polarization", (3,))],
                 _pre_sphere, magnet=True, excitation="polarization", lengths=("observers", "diameter")),
     "cylseg": W("cylseg", F + "field_BH_cylinder_segment", "BHJM_cylinder_segment", [("observers", (3,)), ("dimension", (5,)), ("polarization", (3,))],
-                _pre_seg, cuts=("segH",), magnet=True, excitation="polarization"),
+                _pre_seg, cuts=("segH",), magnet=True, excitation="polarization", lengths=("observers",)),
     "cylseg_internal": W("cylseg_internal", F + "field_BH_cylinder_segment", "BHJM_cylinder_segment_internal",
                          [("observers", (3,)), ("dimension", (5,)), ("polarization", (3,))], _pre_seg,
-                         cuts=("segH", "cel", "ellipe", "ellipk"), magnet=True, excitation="polarization"),
+                         cuts=("segH", "cel", "ellipe", "ellipk"), magnet=True, excitation="polarization", lengths=("observers",)),
     "tetra": W("tetra", F + "field_BH_tetrahedron", "BHJM_magnet_tetrahedron", [("observers", (3,)), ("vertices", (4, 3)), ("polarization", (3,))],
                _pre_tetra, cuts=("triB",), magnet=True, excitation="polarization", lengths=("observers", "vertices")),
     "trimesh": W("trimesh", F + "field_BH_triangularmesh", "BHJM_magnet_trimesh", [("observers", (3,)), ("mesh", (4, 3, 3)), ("polarization", (3,))],
